@@ -46,8 +46,8 @@ class C08:
     tables = True
     rule = (
         "cases = histories of 25 operations over {create executable / non-executable file, delete, rename, chmod +x/-x, replace file by directory, make FIFO / broken symlink / symlink to an executable, "
-        "$PATH append / insert(0) / remove / reorder / reassign / swap scope, cd} on a layout of 2-6 directories (some symlinked, missing, duplicated, relative, empty entries); after every operation "
-        "all five names are looked up through every view; each (operation, name, view) comparison is an evaluation; distinct_nontrivial = distinct (layout signature, operation kind, name state) triples where the "
+        "$PATH append / insert(0) / remove / reorder / reassign / swap scope, cd} on a layout of 2-6 directories (some symlinked, missing, duplicated, relative, empty entries, `..` behind a symlinked component with and without a decoy); after every operation "
+        "all five names are looked up through every view in a random order, each answer judged before the next question; each (operation, name, view) comparison is an evaluation; distinct_nontrivial = distinct (layout signature, operation kind, name state) triples where the "
         "name exists in at least two $PATH directories or changed state in this step"
     )
     assumptions = [
